@@ -136,10 +136,12 @@ func (p c20Prog) cmd(t string, k int) (src, expanded, stdout, stderr string) {
 	}
 	// the texts carry printf verbs: a report that is passed through a format function would mangle them
 	// ... and text that looks like a JSON escape: a report that is post-processed as text would mangle it
-	src = fmt.Sprintf("echo OUT_%s_%d%s_100%%d%%s'\\u0026<&>' && echo ERR_%s_%d_%%v >&2 && echo %s:%d >> \"$VLOG\"", t, k, v, t, k, t, k)
-	expanded = strings.ReplaceAll(src, "{{.VA}}", p.varVal(0))
+	// ... and a template action that is not a variable reference: the command is a template whether or
+	// not the file declares variables
+	src = fmt.Sprintf("echo OUT_%s_%d{{\"T\"}}%s_100%%d%%s'\\u0026<&>' && echo ERR_%s_%d_%%v >&2 && echo %s:%d >> \"$VLOG\"", t, k, v, t, k, t, k)
+	expanded = strings.ReplaceAll(strings.ReplaceAll(src, "{{.VA}}", p.varVal(0)), `{{"T"}}`, "T")
 	// the variable is echoed unquoted: the shell splits it into words, which echo joins with single blanks
-	return src, expanded, fmt.Sprintf("OUT_%s_%d%s_100%%d%%s\\u0026<&>\n", t, k, strings.Join(strings.Fields(vv), " ")), fmt.Sprintf("ERR_%s_%d_%%v\n", t, k)
+	return src, expanded, fmt.Sprintf("OUT_%s_%dT%s_100%%d%%s\\u0026<&>\n", t, k, strings.Join(strings.Fields(vv), " ")), fmt.Sprintf("ERR_%s_%d_%%v\n", t, k)
 }
 
 func (p c20Prog) text() string {
